@@ -5,6 +5,7 @@ import FrappyModel.Datatypes.Variants
 import FrappyModel.Datatypes.CompatUsers
 import FrappyModel.Datatypes.CopyHeap
 import FrappyModel.Datatypes.Import
+import FrappyModel.Datatypes.CommandInfo
 import FrappyModel.Spec.C03
 import FrappyModel.Generated.C03
 /-
@@ -346,6 +347,41 @@ def handle (j : Json) : R Json := do
       | .error e => errToJson e
     return Json.mkObj [("model", m), ("nested", .bool (decide (NestedCmd a b))),
       ("judge", jstrs (judgeCmd a b verdict (← wits "wa") (← wits "wr")))]
+  | "cmdrebuild" =>
+    let opt (key : String) : R (Option (DInfo Float)) := do
+      match j.getObjVal? key with
+      | .ok .null => pure none
+      | .ok t => some <$> dinfoOfJson t
+      | .error _ => pure none
+    let c : CmdInfo Float := { argument := ← opt "arg", result := ← opt "res" }
+    let impl ← fld j "impl"
+    let obs (key : String) : R (CmdDerived Float) := do
+      let o ← fld impl key
+      let ps (k2 : String) : R (Option (List (Probe Float))) := do
+        match o.getObjVal? k2 with
+        | .ok .null => pure none
+        | .ok _ => some <$> probesOfJson o k2
+        | .error _ => pure none
+      return { built := ← fldBool o "built", datainfo := (← optJVal o "datainfo").getD .null,
+               datainfo' := ← optJVal o "datainfo2", argument := ← ps "argp", result := ← ps "resp",
+               shared := ← fldStrs o "shared" }
+    let ex := exportCommand consts c
+    let showCmd (r : Except Err (CmdInfo Float)) : Json := match r with
+      | .ok c' => Json.mkObj [("arg", (c'.argument.map dinfoToJson).getD .null), ("res", (c'.result.map dinfoToJson).getD .null)]
+      | .error e => errToJson e
+    let rebuilt : Except Err (CmdInfo Float) := match ex with
+      | .ok d => getCommand consts d
+      | .error e => .error e
+    return Json.mkObj [
+      ("model", Json.mkObj [("datainfo", exToJson jvalToJson ex), ("rebuild", showCmd rebuilt), ("copy", showCmd (copyCommand consts c))]),
+      ("aligned", .bool ((c.argument.map DInfo.exportableB).getD true && (c.result.map DInfo.exportableB).getD true)),
+      ("judge", jstrs ((judgeCmdDerived c (← obs "rebuild")).map ("rebuild:" ++ ·) ++ (judgeCmdDerived c (← obs "copy")).map ("copy:" ++ ·)))]
+  | "getcmd" =>
+    let d ← jvalOfJson (← fld j "json")
+    let showCmd (r : Except Err (CmdInfo Float)) : Json := match r with
+      | .ok c' => Json.mkObj [("arg", (c'.argument.map dinfoToJson).getD .null), ("res", (c'.result.map dinfoToJson).getD .null)]
+      | .error e => errToJson e
+    return Json.mkObj [("model", showCmd (getCommand consts d))]
   | "writable" =>
     let v ← ctypeOfJson (← fld j "value")
     let t ← ctypeOfJson (← fld j "target")
